@@ -440,6 +440,9 @@ def _attrs(col, rule="C14.R4"):
                         if isinstance(k, ast.Constant) and isinstance(k.value, str):
                             known.add(k.value)
         known |= {"__class__", "__dict__"}
+        if "__init__" in c.methods:
+            from .common import init_attribute_table
+            known |= set(init_attribute_table(repo, cname))
         seen = set()
         for fname, fn in c.methods.items():
             if id(fn) in seen:
